@@ -313,4 +313,3 @@ package http1
 //@   ghostset-at-entry ctxReset = false
 //@   ghostset after RequestContext.Reset: ctxReset = (arg0 == ctx)
 //@   assert before Put: ctxReset && arg1 == ctx
-
